@@ -46,7 +46,17 @@ func DeriveECDHES(alg string, apuData, apvData []byte, priv *ecdsa.PrivateKey, p
 	}
 
 	z, _ := priv.PublicKey.Curve.ScalarMult(pub.X, pub.Y, priv.D.Bytes())
-	reader := NewConcatKDF(crypto.SHA256, z.Bytes(), algID, ptyUInfo, ptyVInfo, supPubInfo, []byte{})
+
+	// The shared secret Z is a field element converted to a fixed-width octet string
+	// (RFC 7518 4.6.2, SEC1 2.3.5); big.Int.Bytes() strips leading zero bytes, so pad
+	// on the left to the size of the curve.
+	zBytes := z.Bytes()
+	octSize := (priv.PublicKey.Curve.Params().BitSize + 7) / 8
+	if len(zBytes) < octSize {
+		zBytes = append(make([]byte, octSize-len(zBytes)), zBytes...)
+	}
+
+	reader := NewConcatKDF(crypto.SHA256, zBytes, algID, ptyUInfo, ptyVInfo, supPubInfo, []byte{})
 
 	key := make([]byte, size)
 
